@@ -52,7 +52,7 @@ class TraceJob:
     replay(ctx, scenario_path, out_path) re-executes the inputs of the saved scenario lines."""
 
     def __init__(self, name, module, trace_path, consts, invariants=(), chunk=4000, replay=None,
-                 boundary=None, scenario_count=None, heap="3g", meta=None, attempts=1, rerun=None):
+                 boundary=None, scenario_count=None, heap="3g", meta=None, attempts=3, rerun=None):
         self.name, self.module, self.trace_path = name, module, trace_path
         self.consts, self.invariants, self.chunk = consts, invariants, chunk
         self.replay = replay
